@@ -188,6 +188,8 @@ def run_case(case):
                 k2 = rr.choice(pool) if order == 2 else None
             if testp and k1 == 'm':
                 k1 = 'x'
+            if order == 2 and rr.random() < 0.35:
+                k2 = k1            # diagonal second derivatives (half of them through the add_variation shortcut without first_order_2)
             # elements (and their variations) may refer to another primary than particle 0: the Jacobi centre of mass of the inner bodies, which
             # is what sim.add() uses by default.  vary() has to hand that primary to the derivative constructor, for full and test-particle variations.
             primkind = 'jacobi' if (not cart and vi >= 2 and rr.random() < 0.5) else 'star'
@@ -261,7 +263,12 @@ def run_case(case):
                                 setattr(v1b.particles[vi], k2, 1.0)
                             else:
                                 v1b.vary(vi, k2, primary=prim)
-                        v2 = sim.add_variation(order=2, first_order=v1, first_order_2=v1b)
+                        if v1b is v1 and vi % 2 == 0:
+                            # the documented shortcut for a diagonal second derivative: first_order_2 omitted
+                            v2 = sim.add_variation(order=2, first_order=v1)
+                            counters['second_order_with_first_order_2_omitted'] = counters.get('second_order_with_first_order_2_omitted', 0) + 1
+                        else:
+                            v2 = sim.add_variation(order=2, first_order=v1, first_order_2=v1b)
                         if not cart:
                             v2.vary(vi, k1, k2, primary=prim)
                         var = v2
@@ -515,7 +522,7 @@ def main(tier, seed):
         if k.startswith('max_megno_dev_x1000:'):
             V.counters[k] = max(rr['counters'].get(k, 0) for rr in res if isinstance(rr, dict) and 'counters' in rr)
     inc = []
-    for k in ('constructors_first', 'constructors_second', 'evolution_first', 'evolution_second', 'testparticle_variations', 'evolution_testparticle_variation_relative_to_jacobi_com', 'rescale_runs', 'rescales_triggered', 'megno_runs'):
+    for k in ('constructors_first', 'constructors_second', 'evolution_first', 'evolution_second', 'testparticle_variations', 'evolution_testparticle_variation_relative_to_jacobi_com', 'second_order_with_first_order_2_omitted', 'rescale_runs', 'rescales_triggered', 'megno_runs'):
         if V.counters.get(k, 0) == 0:
             inc.append('monitor counter %s is zero' % k)
     return V.finish(
